@@ -22,7 +22,7 @@ import (
 )
 
 func TestMain(m *testing.M) {
-	vstat.Rule("Condition expressions from the grammar E := E && E | E || E | (E) | NetworkErrorRatio() op FLOAT | ResponseCodeRatio(a,b,c,d) op FLOAT | LatencyAtQuantileMS(q) op INT (six comparisons, minimal parentheses so precedence matters, nesting <= 3); generated check/fallback/recovery durations; histories of clock advances and responses completing with status from {200,201,404,500,502,503,504} and latency = clock advance while in the gate, overlapping completions around trips, several trip/recovery cycles. Oracle: independent three-valued evaluator over the oracle's own record of responses completed since the last trip (counter window: every cut-off between 9 s and 10 s of age; latency histogram: every suffix containing the last 50 s; quantile rank between floor and ceil of q*n/100; 3%+1.5ms band for latency thresholds, 1e-9 for ratios). At every completion that is definitely an evaluation point (later than the previous evaluation + check period) with a definite value: breaker becomes tripped iff the value is true; where it is definitely not an evaluation point the state must not change; unknown values adopt the observation. on-tripped/on-standby run exactly once per observed transition. Non-trivial: >= 2 atoms of different kinds and >= 1 definite-true and >= 1 definite-false evaluation. A third of the drivers have side effects that hang until the case ends (every transition must still start its effect). TestC18_ConcurrentTransitions: 3-20 cycles; a burst of 2-16 simultaneous failing requests trips the breaker, a burst of simultaneous requests just past the recovery period returns it to standby; the breaker's Logger yields and moves the clock by 1 us while armed; on-tripped and on-standby ran exactly once per cycle. Histories include exchanges lasting 72 min-26 h. TestC18_LatencyEdge: all responses take exactly L from {1.2,1.6,1.9,2.5,3,7.6,49.7,50.2,128.6,250,999.6 ms}, condition LatencyAtQuantileMS(q) op K with K within -1..+2 of floor(L) (optionally or-ed with an error-ratio atom), asserted only when the real value (L..1.01 L) and its whole milliseconds agree on the comparison. Histories of TestC18_Condition may contain a sweep of 60-75 distinct status codes followed by a run of one further code.")
+	vstat.Rule("Condition expressions from the grammar E := E && E | E || E | (E) | NetworkErrorRatio() op FLOAT | ResponseCodeRatio(a,b,c,d) op FLOAT | LatencyAtQuantileMS(q) op INT (six comparisons, minimal parentheses so precedence matters, nesting <= 3); generated check/fallback/recovery durations; histories of clock advances and responses completing with status from {200,201,404,500,502,503,504} and latency = clock advance while in the gate, overlapping completions around trips, several trip/recovery cycles. Oracle: independent three-valued evaluator over the oracle's own record of responses completed since the last trip (counter window: every cut-off between 9 s and 10 s of age; latency histogram: every suffix containing the last 50 s; quantile rank between floor and ceil of q*n/100; 3%+1.5ms band for latency thresholds, 1e-9 for ratios). At every completion that is definitely an evaluation point (later than the previous evaluation + check period) with a definite value: breaker becomes tripped iff the value is true; where it is definitely not an evaluation point the state must not change; unknown values adopt the observation. on-tripped/on-standby run exactly once per observed transition. Non-trivial: >= 2 atoms of different kinds and >= 1 definite-true and >= 1 definite-false evaluation. A third of the drivers have side effects that hang until the case ends (every transition must still start its effect). TestC18_ConcurrentTransitions: 3-20 cycles; a burst of 2-16 simultaneous failing requests trips the breaker, a burst of simultaneous requests just past the recovery period returns it to standby; the breaker's Logger yields and moves the clock by 1 us while armed; on-tripped and on-standby ran exactly once per cycle. Histories include exchanges lasting 72 min-26 h. TestC18_LatencyEdge: all responses take exactly L from {1.2,1.6,1.9,2.5,3,7.6,49.7,50.2,128.6,250,999.6 ms}, condition LatencyAtQuantileMS(q) op K with K within -1..+2 of floor(L) (optionally or-ed with an error-ratio atom), asserted only when the real value (L..1.01 L) and its whole milliseconds agree on the comparison. Histories of TestC18_Condition may contain a sweep of 60-75 distinct status codes followed by a run of one further code. TestC18_RatioEdge: thresholds 0.1-0.9 as k/n, atom NetworkErrorRatio() or ResponseCodeRatio(500,600,0,600), 4-40 responses steered so that errors/total meets the threshold exactly now and then; from the second completion on tripped <=> comparison over exact counts.")
 	vstat.Main(m.Run)
 }
 
@@ -570,5 +570,76 @@ func TestC18_LatencyEdge(t *testing.T) {
 			cl = append(cl, "readings-disagree(not-asserted)")
 		}
 		vstat.Case(fmt.Sprintf("edge|%v|%s|%d", L, expr, n), unanimous, cl, map[string]any{"latency": L.String(), "condition": expr, "expected": want, "asserted": unanimous, "responses": n})
+	})
+}
+
+// TestC18_RatioEdge: ratio conditions right at the threshold. A short run of responses (all well
+// inside the metrics window) in which the running error ratio passes through the threshold
+// exactly (3 of 10 against 0.3, 3 of 5 against 0.6 ...). From the second completion on every
+// completion is an evaluation (check period 1 ms, completions 3 ms apart); the condition is read
+// over the exact ratio errors/total with standard comparison, so the breaker must be tripped
+// after a completion iff the comparison holds for the counts so far.
+func TestC18_RatioEdge(t *testing.T) {
+	rapid.Check(t, func(t *rapid.T) {
+		th := rapid.SampledFrom([][3]int64{{3, 10, 0}, {6, 10, 0}, {7, 10, 0}, {1, 4, 0}, {1, 2, 0}, {1, 5, 0}, {3, 4, 0}, {1, 10, 0}, {9, 10, 0}, {2, 5, 0}}).Draw(t, "threshold")
+		lit := map[[2]int64]string{{3, 10}: "0.3", {6, 10}: "0.6", {7, 10}: "0.7", {1, 4}: "0.25", {1, 2}: "0.5", {1, 5}: "0.2", {3, 4}: "0.75", {1, 10}: "0.1", {9, 10}: "0.9", {2, 5}: "0.4"}[[2]int64{th[0], th[1]}]
+		op := rapid.SampledFrom(ops).Draw(t, "cmp")
+		atom := rapid.SampledFrom([]string{"NetworkErrorRatio()", "ResponseCodeRatio(500, 600, 0, 600)"}).Draw(t, "atom")
+		expr := fmt.Sprintf("%s %s %s", atom, op, lit)
+		d := cbh.New(t, expr, time.Second, time.Second, time.Millisecond, time.Duration(rapid.Int64Range(0, int64(time.Second)-1).Draw(t, "phase")))
+		defer d.Close()
+		// the comparison over exact counts: errors/total op num/den  <=>  errors*den op num*total
+		holds := func(errs, total int64) bool {
+			l, r := errs*th[1], th[0]*total
+			switch op {
+			case "<":
+				return l < r
+			case "<=":
+				return l <= r
+			case ">":
+				return l > r
+			case ">=":
+				return l >= r
+			case "==":
+				return l == r
+			}
+			return l != r
+		}
+		n := rapid.IntRange(4, 40).Draw(t, "responses")
+		var errs, total int64
+		exact, asserted := 0, 0
+		for i := 0; i < n; i++ {
+			if !d.Start() {
+				t.Fatalf("INFRA: request %d not passed in standby\n%s", i+1, d.History())
+			}
+			// steer the running ratio towards the threshold so that it is met exactly now and then
+			fail := rapid.Bool().Draw(t, "fails")
+			if rapid.IntRange(0, 2).Draw(t, "steer") != 0 {
+				fail = (errs+1)*th[1] <= th[0]*(total+1)
+			}
+			status := 200
+			if fail {
+				status = rapid.SampledFrom([]int{502, 504}).Draw(t, "failure")
+				errs++
+			}
+			total++
+			d.Finish(len(d.InFlight)-1, status)
+			want := holds(errs, total)
+			if errs*th[1] == th[0]*total {
+				exact++
+			}
+			tripped := d.State() == "tripped"
+			if i >= 1 || tripped {
+				asserted++
+				if tripped != want {
+					t.Fatalf("%d of %d responses so far are network errors (502/504); %q is %v over them, but after this completion (an evaluation: check period 1 ms, completions 3 ms apart) the breaker is %s\n%s", errs, total, expr, want, d.State(), d.History())
+				}
+			}
+			if tripped {
+				break
+			}
+			d.Advance(cbh.Step(3))
+		}
+		vstat.Case(fmt.Sprintf("ratioedge|%s|%d|%d|%d", expr, n, errs, total), exact > 0, []string{"ratio-at-threshold"}, map[string]any{"condition": expr, "responses": total, "errors": errs, "evaluations_with_ratio_exactly_at_threshold": exact})
 	})
 }
